@@ -77,6 +77,7 @@ Start(name) ==
      elim  |-> "FO",                                     \* elimination: FO | MM | ZO | MIX
      nodepot |-> FALSE,                                  \* the transit chain was put on a model without depot
      deco  |-> {},
+     epsjoint |-> FALSE,                                 \* the epsilons of the error model sit in ONE joint (BLOCK) distribution
      abs   |-> w.abs0,
      transits |-> 0]
 
@@ -108,6 +109,10 @@ ActSetErr == IF W.ndv = 1 THEN {A("seterr", "", "", k, t) : k \in ErrKinds, t \i
                   \cup {A("seterr", "", d, "prop", z) : d \in {"1", "2"}, z \in {"none", "nozp"}}
 ActRmErr  == {A("rmerr", "", "", "", "")}
 ActDeco   == {A(d, "", "", "", "") : d \in {"power", "iivruv", "timevar", "weighted"}}
+\* create_joint_distribution(model, <all epsilons>): a generator step on the random-variable structure (correlated
+\* residual errors); the model function does not change (judged: Y unchanged), but every later decoration that says
+\* "every epsilon" has to find the epsilons inside one distribution
+ActJoinEps == {A("joineps", "", "", "", "")}
 ActAbs    == {A("abs", "", "", a, "") : a \in {"FO", "ZO", "SEQ", "INST"}}
 ActTransit == {A("transit", "", "", n, "") : n \in {"0", "1", "3"}}
 \* write the model and read it back (model.code -> read_model_from_string): the function is C02's to keep; here it
@@ -138,6 +143,7 @@ Enabled(mm, a) ==
       [] a.k = "power"   -> w.ndv = 1 /\ mm.deco = {} /\ mm.err.kind # "none" /\ mm.err.trans = "none"
       [] a.k = "iivruv"  -> w.ndv = 1 /\ mm.deco = {} /\ mm.err.kind # "none" /\ mm.err.trans = "none"
       [] a.k = "timevar" -> w.ndv = 1 /\ mm.deco = {} /\ mm.err.kind # "none" /\ mm.err.trans = "none"
+      [] a.k = "joineps" -> w.ndv = 1 /\ mm.deco = {} /\ mm.err.kind = "comb" /\ mm.err.trans = "none" /\ ~mm.epsjoint
       [] a.k = "weighted" -> w.ndv = 1 /\ mm.deco = {} /\ mm.err.kind \in {"add", "prop"} /\ mm.err.trans = "none"
       \* the documented "never run" combinations of C08 are not part of this property's alphabet
       \* (totality of setter sequences is C08's property; SEQ -> INST is its known finding C08-F4)
@@ -146,7 +152,7 @@ Enabled(mm, a) ==
       \* does from there is C08's known finding C08-F6, and the state is this property's finding C09-F6)
       [] a.k = "transit" -> mm.abs \in {"FO", "INST"} /\ mm.elim = "FO" /\ ~(mm.nodepot /\ mm.transits = 1)
       [] a.k = "elim"    -> mm.elim = "FO" /\ mm.transits = 0 /\ w.ndv = 1
-      [] a.k = "reread"  -> mm.tr = "none" /\ mm.iov = {} /\ mm.deco = {}
+      [] a.k = "reread"  -> mm.tr = "none" /\ mm.iov = {} /\ mm.deco = {} /\ ~mm.epsjoint
       [] OTHER -> FALSE
 
 \* allometry scales the clearance / volume parameters that do not yet depend on the variable
@@ -191,8 +197,10 @@ Apply(mm, a) ==
                            !.ext = [p \in DOMAIN @ |-> IF p \in AlloTargets(mm, a)
                                                        THEN Append(@[p], [k |-> "allo", c |-> a.c]) ELSE @[p]]]
            [] a.k = "seterr" -> IF a.c = "2" THEN [mm EXCEPT !.err2 = [kind |-> a.x, trans |-> a.y]]
-                                ELSE [mm EXCEPT !.err = [kind |-> a.x, trans |-> a.y]]
-           [] a.k = "rmerr"  -> [mm EXCEPT !.err = [kind |-> "none", trans |-> "none"]]
+                                \* (a new error model brings new, independent epsilons)
+                                ELSE [mm EXCEPT !.err = [kind |-> a.x, trans |-> a.y], !.epsjoint = FALSE]
+           [] a.k = "rmerr"  -> [mm EXCEPT !.err = [kind |-> "none", trans |-> "none"], !.epsjoint = FALSE]
+           [] a.k = "joineps" -> [mm EXCEPT !.epsjoint = TRUE]
            [] a.k \in {"power", "iivruv", "timevar", "weighted"} -> [mm EXCEPT !.deco = @ \cup {a.k}]
            [] a.k = "elim" ->
                 IF a.x = "MIX" THEN [mm EXCEPT !.elim = a.x]
@@ -236,13 +244,14 @@ DoTransform  == "eta" \in Groups /\ \E a \in ActTransform : Step(a)
 DoSetErr     == "err" \in Groups /\ \E a \in ActSetErr : Step(a)
 DoRemoveErr  == "err" \in Groups /\ \E a \in ActRmErr : Step(a)
 DoDecorateErr == "err" \in Groups /\ \E a \in ActDeco : Step(a)
+DoJoinEps == "err" \in Groups /\ \E a \in ActJoinEps : Step(a)
 DoSetAbsorption == "abs" \in Groups /\ \E a \in ActAbs : Step(a)
 DoSetTransits == "abs" \in Groups /\ \E a \in ActTransit : Step(a)
 DoReread == "abs" \in Groups /\ \E a \in ActReread : Step(a)
 DoSetElimination == "abs" \in Groups /\ \E a \in ActElim : Step(a)
 
 Next == \/ DoAddCov \/ DoRemoveCov \/ DoAllometry \/ DoAddIIV \/ DoRemoveIIV \/ DoAddIOV \/ DoRemoveIOV
-        \/ DoTransform \/ DoSetErr \/ DoRemoveErr \/ DoDecorateErr \/ DoSetAbsorption \/ DoSetTransits \/ DoReread \/ DoSetElimination
+        \/ DoTransform \/ DoSetErr \/ DoRemoveErr \/ DoDecorateErr \/ DoJoinEps \/ DoSetAbsorption \/ DoSetTransits \/ DoReread \/ DoSetElimination
 Spec == Init /\ [][Next]_vars
 
 \* ---------------------------------------------------------------- abstract semantics
